@@ -57,7 +57,10 @@ def field_list():
     if _FIELD_LIST is None:
         out = []
         for path in corpus.class_paths():
-            for raw in corpus.accepted(path):
+            seeds = corpus.accepted(path)
+            # ... and up to four of the derived valid inputs (edited fields, emptied fields, optional fields set)
+            seeds = seeds + [raw for raw in corpus.variants(path) if raw not in seeds][-4:]
+            for raw in seeds:
                 if 1 < len(raw) <= FIELD_MAX_LEN and not wirefault.is_text(raw):
                     out.append((path, raw.hex()))
         _FIELD_LIST = out
@@ -81,10 +84,23 @@ def name_list():
     return _NAME_LIST
 
 
+_PAIR_LIST = None
+
+
+def pair_list():
+    global _PAIR_LIST  # pylint: disable=global-statement
+    if _PAIR_LIST is None:
+        _PAIR_LIST = [(path, hexdata) for path, hexdata in field_list()
+                      if len(hexdata) <= 1400 and len(_prefixed_spans(bytes.fromhex(hexdata))) >= 2]
+    return _PAIR_LIST
+
+
 def prepare(tier):  # pylint: disable=unused-argument
+    corpus.warm_variants()
     workload.pools()
     sweep_list()
     field_list()
+    pair_list()
     name_list()
     wrap_table()
     return {'phase': 'explore'}
@@ -108,6 +124,9 @@ def _generate(rng, index, tier, extra):  # pylint: disable=unused-argument
     if extra and extra.get('phase') == 'fields':
         path, hexdata = field_list()[index]
         return {'kind': 'sweep', 'cls': path, 'hex': hexdata, 'fields': True}
+    if extra and extra.get('phase') == 'pairs':
+        path, hexdata = pair_list()[index]
+        return {'kind': 'sweep', 'cls': path, 'hex': hexdata, 'pairs': True}
     if extra and extra.get('phase') == 'consts':
         path, hexdata = field_list()[index]
         return {'kind': 'sweep', 'cls': path, 'hex': hexdata, 'consts': True}
@@ -147,7 +166,7 @@ def _generate(rng, index, tier, extra):  # pylint: disable=unused-argument
             faults.append({'k': 'insert', 'at': rng.randrange(len(raw) + 1), 'hex': other[:64].hex()})
         entry = rng.choice(('parse_immutable', 'parse_immutable', 'parse_exact_size', 'parse_mutable', 'all'))
         return {'kind': 'dgram', 'cls': path, 'hex': raw.hex(), 'faults': faults, 'entry': entry}
-    channel = rng.choice(workload.CHANNELS)
+    channel = rng.choice(workload.STREAM_CHANNELS)
     discards = []
     records = [channel.make(rng, discards) for _ in range(rng.choice((1, 2, 2, 3, 4)))]
     stream = b''.join(records)
@@ -309,6 +328,53 @@ def _fill(length, pattern):
     return lead + _FILL_ONE[pattern](length)
 
 
+def _prefixed_spans(raw, limit=12):
+    """(start, length) of values behind a 4- or 2-octet big-endian length prefix that fits exactly."""
+    out = []
+    for size in (4, 2):
+        for at in range(0, len(raw) - size):
+            length = int.from_bytes(raw[at:at + size], 'big')
+            start = at + size
+            if 1 <= length <= 600 and start + length <= len(raw) and (size == 4 or raw[at] == 0 or length > 255):
+                if all(not (start < s + l and s < start + length) or (s <= start and start + length <= s + l) or
+                       (start <= s and s + l <= start + length) for s, l in out):
+                    out.append((start, length))
+                    if len(out) >= limit:
+                        return out
+    return out
+
+
+def _replace_span(data, original, start, length, new):
+    """data with data[start:start+length] replaced; the prefix in front of the span and every length field before it
+    that covers it (judged on the original input) are adjusted."""
+    delta = len(new) - length
+    out = bytearray(data[:start] + new + data[start + length:])
+    if delta:
+        fixed = set()
+        for size in (4, 3, 2):
+            for pos in range(0, start - size + 1):
+                if fixed.intersection(range(pos, pos + size)):
+                    continue
+                value = int.from_bytes(original[pos:pos + size], 'big')
+                current = int.from_bytes(out[pos:pos + size], 'big')
+                if value and start + length <= pos + size + value <= len(original) and pos + size <= start and \
+                        0 <= current + delta < (1 << (8 * size)) and (size == 4 or original[pos] == 0 or value > 255):
+                    out[pos:pos + size] = (current + delta).to_bytes(size, 'big')
+                    fixed.update(range(pos, pos + size))
+    return bytes(out)
+
+
+def _pair_fault(raw, a_start, a_length, small, b_start, b_length, big):
+    small_value = {'empty': b'', 'zero': b'\x00' * a_length, 'one': b'\x00' * (a_length - 1) + b'\x01'}[small]
+    big_value = (raw[b_start:b_start + b_length] * (big // max(1, b_length) + 1))[:big]
+    if big_value[:1] >= b'\x80':
+        big_value = b'\x7f' + big_value[1:]
+    # the later span first, so that the offsets of the earlier one stay valid
+    first, second = sorted(((a_start, a_length, small_value), (b_start, b_length, big_value)), reverse=True)
+    data = _replace_span(raw, raw, first[0], first[1], first[2])
+    return _replace_span(data, raw, second[0], second[1], second[2])
+
+
 def _fill_spans(raw):
     """[(offset, length, patterns)]: contents of plausible length-prefixed spans (4-, 2-, 1-octet prefix holding
     exactly a length that fits) and even-length tails of the input."""
@@ -346,6 +412,17 @@ def _exec_sweep(doc, res):
     elif doc.get('fields'):
         plan = [('field%d' % size, off, val) for size, values in sorted(FIELD_VALUES.items()) for val in values
                 for off in range(0, len(raw) - size + 1)]
+    elif doc.get('pairs'):
+        # two faults that must coincide: one length-prefixed value emptied / zeroed / set to one, another one grown to
+        # a few thousand octets (lengths in front kept consistent) - an invalid small value next to a huge one
+        spans = [(start, length) for start, length in _prefixed_spans(raw)]
+        plan = [('pair', a_start, '%d:%s:%d:%d:%d' % (a_length, small, b_start, b_length, big))
+                for a_start, a_length in spans for b_start, b_length in spans
+                if a_start + a_length <= b_start - 1 or b_start + b_length <= a_start - 1
+                for small in ('empty', 'zero', 'one') for big in (2000, 4500)]
+        if len(plan) > 1500:
+            step = len(plan) / 1500.0
+            plan = [plan[int(k * step)] for k in range(1500)]
     elif doc.get('consts'):
         # every byte-string constant the library defines, written over every offset
         plan = [('const', off, const.hex()) for const in wirefault.byte_constants()
@@ -374,6 +451,13 @@ def _exec_sweep(doc, res):
             data = raw[:off]
             res.stats['fault.trunc'] += 1
             entries = oracles.ENTRY_POINTS
+        elif mode == 'pair':
+            a_length, small, b_start, b_length, big = val.split(':')
+            data = _pair_fault(raw, off, int(a_length), small, int(b_start), int(b_length), int(big))
+            if data is None or data == raw:
+                continue
+            res.stats['fault.pair'] += 1
+            entries = ('parse_immutable', )
         elif mode == 'const':
             const = bytes.fromhex(val)
             data = raw[:off] + const + raw[off + len(const):]
@@ -582,11 +666,12 @@ def check(tier, seed):
     fields = core.run_batch(me, seed, tier, len(field_list()), 400.0, {'phase': 'fields'}, chunk=4)
     names = core.run_batch(me, seed, tier, len(name_list()), 400.0, {'phase': 'names'}, chunk=2)
     bigint = core.run_batch(me, seed, tier, len(field_list()), 600.0, {'phase': 'bigint'}, chunk=4)
+    pairs = core.run_batch(me, seed, tier, len(pair_list()), 600.0, {'phase': 'pairs'}, chunk=4)
     consts = core.run_batch(me, seed, tier, len(field_list()) if wirefault.byte_constants() else 0, 600.0,
                             {'phase': 'consts'}, chunk=8)
     n_runs, wall = BUDGET[tier]
     explore = core.run_batch(me, seed, tier, n_runs, wall, extra)
-    batch = core.merge_batches([sweep, fields, names, bigint, consts, explore, histories])
+    batch = core.merge_batches([sweep, fields, names, bigint, pairs, consts, explore, histories])
     coverage = core.coverage_from_batch(
         batch, RULE, fault_kinds=wire.FAULT_KINDS,
         probes=('corrupted_input_accepted', 'second_layer_parse', 'faulted_item_accepted_inside_container'),
